@@ -558,12 +558,13 @@ func probeO35() (bool, string) {
 
 func probeO36() (bool, string) {
 	return guard(func() (bool, string) {
-		c, _ := ucfg.NewFrom(map[string]interface{}{"d": "${t}", "t": 4}, ucfg.VarExp)
+		c, _ := ucfg.NewFrom(map[string]interface{}{"d": "${t}", "t": 4, "e": "${f}", "f": "${t}"}, ucfg.VarExp)
 		t := struct {
 			D time.Duration `config:"d"`
+			E time.Duration `config:"e"`
 		}{}
 		err := c.Unpack(&t, ucfg.VarExp)
-		return err != nil || t.D != 4*time.Second, fmt.Sprint(err, " ", t.D)
+		return err != nil || t.D != 4*time.Second || t.E != 4*time.Second, fmt.Sprint(err, " ", t.D, " ", t.E)
 	})
 }
 
